@@ -33,6 +33,7 @@ def run(ck):
     r7_encoding(ck, w)
     r8_partial(ck, w)
     r9_looped(ck, w)
+    r11_partial_subgroup(ck, w)
     from . import c11
     c11.r5_unchecked(ck, w, rule='C18.R10', crates=['zkir', 'zk_stdlib'], floor=0)
 
@@ -680,3 +681,28 @@ def r9_looped(ck, w):
         ok = (r['param'], r['reaches']) in dprops.bound_flows(f)
         ck.record('C18.R9', f'{r["fn"]}|{r["param"]}|{dprops.short(r["reaches"])}', ok, f'`{r["param"]}` reaches {dprops.short(r["reaches"])} by value',
                   f'{r["fn"]}: the declared bound `{r["param"]}` no longer reaches {r["reaches"]} by value')
+
+
+def r11_partial_subgroup(ck, w):
+    """the panicking subgroup conversion is not applied to program-supplied points"""
+    from ..core import mir_callee
+    ck.rule('C18.R11', 'CircuitCurve::into_subgroup panics (`expect`) on a point outside the prime-order subgroup; the ZKIR crate decodes points from PROGRAM TEXT '
+                       '(constants `Jubjub:<hex>`) and from witness bytes, so no function of midnight_zkir may call it: ill-formed programs must be rejected with '
+                       'an error (the checked decoder JubjubSubgroup::from_bytes), not a panic in both interpreters')
+    n = 0
+    bodies = 0
+    for nid0 in w.mir_index():
+        for b in w.mir_bodies(nid0):
+            if b['_crate'] != 'zkir' or '::tests' in b['_xid']:
+                continue
+            bodies += 1
+            for blk in b['blocks']:
+                t = blk['t']
+                if t.get('k') == 'call' and (mir_callee(t) or '').endswith('CircuitCurve>::into_subgroup') or \
+                   (t.get('k') == 'call' and (mir_callee(t) or '').endswith('CircuitCurve::into_subgroup')):
+                    n += 1
+                    ck.bad('C18.R11', f'{b["_xid"].split("::{closure")[0]}|calls:into_subgroup',
+                           f'{b["_xid"]} converts a decoded point with the panicking CircuitCurve::into_subgroup: a constant such as the order-2 point '
+                           f'`Jubjub:0000…ed73` (0, -1) panics off-circuit evaluation and circuit compilation instead of being rejected', f'{b["file"]}')
+    ck.floor('C18.R11', 'zkir MIR bodies scanned', bodies, 200)
+    ck.ok('C18.R11', 'no-panicking-subgroup-conversion', f'{bodies} bodies scanned, {n} calls')
